@@ -528,25 +528,23 @@ pub fn run_c17(out: &mut Out, seed: u64, thorough: bool) {
 pub fn run_ops(out: &mut Out, bin: &str, dir: &str, ops: &[Op]) {
     let script = format!("{}/script.txt", dir);
     std::fs::write(&script, ops.iter().map(|o| o.line.as_str()).collect::<Vec<_>>().join("\n") + "\n").unwrap();
-    let o = std::process::Command::new(bin)
-        .current_dir(dir)
-        .env("EMU2A_VERIF_SCRIPT", &script)
-        .env("TMPDIR", dir)
-        .env("NO_COLOR", "1")
-        .output()
-        .expect("spawn 2a-emulator");
-    let text = String::from_utf8_lossy(&o.stdout).to_string();
+    let mut cmd = std::process::Command::new(bin);
+    cmd.current_dir(dir).env("EMU2A_VERIF_SCRIPT", &script).env("TMPDIR", dir).env("NO_COLOR", "1");
+    // the whole script is one batch: generous limit, but a session that stops answering must not stall the check
+    let limit: u64 = std::env::var("VERIF_TUI_SECS").ok().and_then(|s| s.parse().ok()).unwrap_or(600 + ops.len() as u64 / 500);
+    crate::out::current_op(None);
+    let (code, text, errtext, timed_out) = crate::out::run_limited(cmd, dir, limit);
     let answers: Vec<&str> = text.lines().collect();
     if answers.len() != ops.len() {
         out.notes.insert(
             "script-run".into(),
-            format!("the binary answered {} of {} lines (exit {:?}): {}", answers.len(), ops.len(), o.status.code(),
-                String::from_utf8_lossy(&o.stderr).chars().take(300).collect::<String>()),
+            format!("the binary answered {} of {} lines (exit {:?}, timed out: {}): {}", answers.len(), ops.len(), code, timed_out,
+                errtext.chars().take(300).collect::<String>()),
         );
     }
     let mut dead = false;
     for (i, o) in ops.iter().enumerate() {
-        let a = answers.get(i).copied().unwrap_or("no-answer");
+        let a = answers.get(i).copied().unwrap_or(if timed_out && i == answers.len() { "hang: the session did not answer" } else { "no-answer" });
         let head = o.line.split(' ').next().unwrap_or("");
         if head == "tnew" {
             dead = false;
@@ -569,8 +567,8 @@ pub fn run_ops(out: &mut Out, bin: &str, dir: &str, ops: &[Op]) {
             }
             "key" | "draw" | "drawp" => {
                 out.emit(&o.line, a);
-                out.emit("spec.tnopanic", if a == "panic" || a == "no-answer" { "panic" } else { "ok" });
-                if a == "panic" || a == "no-answer" {
+                out.emit("spec.tnopanic", if a.starts_with("hang") { "hang: the session did not answer" } else if a == "panic" || a == "no-answer" { "panic" } else { "ok" });
+                if a == "panic" || a == "no-answer" || a.starts_with("hang") {
                     dead = true;
                     out.count("PANIC");
                 }
